@@ -105,7 +105,10 @@ var g04TagPrefixes = []string{"", "abc ", "x>", "x >", "x'>", "x\">", "x`>", "'>
 	// an end tag closed after white space, a slash or a quoted value right before the vector
 	"\"></a >", "'></p\n>", "x></b/>", "\"></a b='c'>", "</i\t>", "x></td >",
 	// other complete constructs right before the vector
-	"<!--x-->", "<!-- x --!>", "<![CDATA[x]]>", "<%x%>", "<?x?>", "</>", "<b/>", "<b c=d/>", "<b c='d'/>", "<b c=d>t</b>", "<!x>", "x<!---->", "<b c=\"d\"e=f>", "&lt;", "<b\x00c>", "<b c=d\x00>", "<b><![cdata[></b>", "<![cDaTa[x>", "<![CDATA[x]]><![cdata[>"}
+	"<!--x-->", "<!-- x --!>", "<![CDATA[x]]>", "<%x%>", "<?x?>", "</>", "<b/>", "<b c=d/>", "<b c='d'/>", "<b c=d>t</b>", "<!x>", "x<!---->", "<b c=\"d\"e=f>", "&lt;", "<b\x00c>", "<b c=d\x00>", "<b><![cdata[></b>", "<![cDaTa[x>", "<![CDATA[x]]><![cdata[>",
+	// polyglot openers: the unquoted reading is swallowed by an unterminated comment,
+	// <% block or CDATA section, the quoted readings break out behind the quote
+	"<!--\">", "<!--'>", "<!--`>", "<!--x\" >", "<%\">", "<%'>", "<%x`>", "<![CDATA[\">", "<![CDATA['>", "<![CDATA[x`>", "<!--x' y\">"}
 
 type g04AttrPrefix struct {
 	text   string
@@ -520,7 +523,7 @@ func max(a, b int) int {
 }
 
 func g04SweepSize() uint64 {
-	axes := len(g04AttrPrefixes) + len(g04Seps) + len(g04Quotes) + 4 + len(g04TagEnds) + len(g04EqPad) + 4 + 24
+	axes := max(len(g04AttrPrefixes), len(g04TagPrefixes)) + len(g04Seps) + len(g04Quotes) + 4 + len(g04TagEnds) + len(g04EqPad) + 4 + 24
 	return uint64(len(g04All())) * uint64(axes)
 }
 
@@ -528,7 +531,7 @@ func g04SweepSize() uint64 {
 func c04() *core.Check {
 	return &core.Check{
 		ID: "C04",
-		Rule: "members of the fixed vector grammar G_xss built from the live lists (every black tag, every on* event, style/filter, every URL attribute x scheme, xmlns/xlink/datasrc/dataformatas, attributename indirection, DOCTYPE/ENTITY/<?import/<?xml/IE-conditional/back-tick-comment markup) behind every breakout prefix: an axis-wise sweep (every vector x every prefix, separator, quoting, case mask, tag end, NUL position) followed by random products incl. per-byte character-reference encodings, leading junk and NUL/LF inside schemes, NUL bytes between '<' and a tag name, values whose opening quote is never closed, and one in twelve with one obfuscation (separator run, NUL/LF run inside the scheme, leading junk, white space around '=', NUL run inside the name) stretched to a threshold length between 63 and 65537 bytes. Oracle: IsXSS = true. " +
+		Rule: "members of the fixed vector grammar G_xss built from the live lists (every black tag, every on* event, style/filter, every URL attribute x scheme, xmlns/xlink/datasrc/dataformatas, attributename indirection, DOCTYPE/ENTITY/<?import/<?xml/IE-conditional/back-tick-comment markup) behind every breakout prefix (incl. complete constructs and polyglot openers such as <!--\"> whose unquoted reading is swallowed by an unterminated comment, <% block or CDATA section): an axis-wise sweep (every vector x every prefix, separator, quoting, case mask, tag end, NUL position) followed by random products incl. per-byte character-reference encodings, leading junk and NUL/LF inside schemes, NUL bytes between '<' and a tag name, values whose opening quote is never closed, and one in twelve with one obfuscation (separator run, NUL/LF run inside the scheme, leading junk, white space around '=', NUL run inside the name) stretched to a threshold length between 63 and 65537 bytes. Oracle: IsXSS = true. " +
 			"Non-trivial = every member; distinct by string.",
 		Plan: func(tier string, seed uint64) []core.Unit {
 			total := g04SweepSize()
